@@ -37,6 +37,7 @@ OUTCOMES = {
     'n_event_report': ['ok', 'EHE'],
     'get_store': [0x0000, 0xB000, 0xA700, 'EHE'],
     'get_store2': [0x0000, 0xB000],
+    'get_store2s': [0x0000],
     'get_store_other': [0x0000, 0xA700],      # the sub-operation's SOP class is not the abstract syntax of the context it arrives on
     'store_plain': [0x0000, 0xB000, 0xA700],      # the handler answers with a plain integer status code
     'user_n_action': ['x'],      # an application-defined MessageDispatcherSCP service next to StorageCommitment
@@ -242,9 +243,12 @@ def _one(case, sae):
     other_class = svc == 'get_store_other'
     if other_class:
         svc = 'get_store'
+    same_class = svc == 'get_store2s'
+    if same_class:
+        svc = 'get_store2'
     sop = {'echo': VERIF, 'store': CT, 'find': FIND, 'move': MOVE, 'n_action': COMMIT, 'n_event_report': COMMIT, 'get_store': CT,
            'get_store2': CT, 'user_n_action': PRIVATE, 'user_n_event': PRIVATE}[svc]
-    MR = '1.2.840.10008.5.1.4.1.1.4'
+    MR = CT if same_class else '1.2.840.10008.5.1.4.1.1.4'      # 'get_store2s': the same class accepted on two contexts
     # client side (for get_store the *client* is the entity under test)
     cae = SvcAE.__new__(SvcAE)
     applicationentity.AEBase.__init__(cae, [TS], 65536)
@@ -283,7 +287,7 @@ def _one(case, sae):
         exp = [(q, u, ii, m, out) for q, u, ii, m in seq]
         if got != exp:
             viol.append((sig + ':responses', 'C-STORE responses (context, class, instance, msg id, status) %r, expected %r (%s)' % (got, exp, where)))
-        return {'viol': viol, 'case': case if viol else None, 'key': (svc, str(out), mid, pc, case['uidlen'])}
+        return {'viol': viol, 'case': case if viol else None, 'key': (svc, same_class, str(out), mid, pc, case['uidlen'])}
     if svc == 'get_store':
         # context ids known to the client AE: C-GET on 1.. and the storage context under `pc`
         cae.context_def_list = {}
